@@ -2,10 +2,10 @@
    All statements are about Gen/GenRate.v, regenerated from /repo/src on every run,
    and hold for every pair of natural numbers (hence every usize value): the
    translated functions never reach an overflowing operation. *)
-From Coq Require Import NArith Bool List.
+From Coq Require Import NArith Bool List Lia.
 From RS.Gen Require Import Prelude GenConsts GenRate.
-From RS.Model Require Import Field Codec Machine Spec.
-From RS.Proofs Require Import RateFacts.
+From RS.Model Require Import Field Tables Sched Codec Machine Spec.
+From RS.Proofs Require Import RateFacts SkewLocal.
 Local Open Scope N_scope.
 
 (* README table *)
@@ -113,3 +113,34 @@ Example C08_rows :
   default_supports 65535 2 = Val false /\ default_supports 0 1 = Val false /\
   default_supports 18446744073709551615 18446744073709551615 = Val false.
 Proof. vm_compute. repeat split. Qed.
+
+
+(* ---------- index safety of the transforms inside the envelope ---------- *)
+(* a transform of size 2^k at skew_delta reads the skew table only below skew_delta + 2^k - 1:
+   with skew_delta + size <= 65536 the result is the one computed from the raw 65535-entry table,
+   i.e. the out-of-range guard of the model's `skew` (a Rust index panic) is never reached -
+   every engine, any element type, any truncation *)
+Theorem C08_transform_index_safe : forall T (ops : elt_ops T) e k trunc sd l, (k <= 16)%nat ->
+  N.of_nat (length l) = 2 ^ N.of_nat k -> sd + 2 ^ N.of_nat k <= 65536 ->
+  fft ops e (2 ^ N.of_nat k) trunc sd l =
+    (if two_layer_engine e then two_fft ops skew_raw else naive_fft ops skew_raw) (2 ^ N.of_nat k) trunc sd l /\
+  ifft ops e (2 ^ N.of_nat k) trunc sd l =
+    (if two_layer_engine e then two_ifft ops skew_raw else naive_ifft ops skew_raw) (2 ^ N.of_nat k) trunc sd l.
+Proof. exact @fft_index_safe. Qed.
+Print Assumptions C08_transform_index_safe.
+
+(* the call sites of the codecs satisfy skew_delta + size <= 65536 inside the envelope: chunk c of
+   an encoder (c * m < count of the other kind, m the chunk size with m + count <= 65536) is
+   transformed at skew_delta (c + 1) * m with size m; the first/last transforms and the decoders
+   use skew_delta 0 with a size that is a power of two <= 65536 *)
+Theorem C08_call_site_bounds : forall k c X, (k <= 16)%nat -> 2 ^ N.of_nat k + X <= 65536 -> c * 2 ^ N.of_nat k < X ->
+  (c + 1) * 2 ^ N.of_nat k + 2 ^ N.of_nat k <= 65536.
+Proof.
+  intros k c X Hk Henv Hc. set (m := 2 ^ N.of_nat k) in *.
+  assert (HQ : 2 ^ (16 - N.of_nat k) * m = 65536).
+  { unfold m. rewrite <- N.pow_add_r. replace (16 - N.of_nat k + N.of_nat k) with 16 by lia. reflexivity. }
+  set (Q := 2 ^ (16 - N.of_nat k)) in *. assert (c + 2 <= Q) by nia. nia.
+Qed.
+Print Assumptions C08_call_site_bounds.
+Theorem C08_work_size_bound : forall x, x <= 65536 -> npow2 x <= 65536.
+Proof. exact npow2_le_65536. Qed.
